@@ -1,0 +1,135 @@
+//go:build verif
+
+// Hooks for the C18 correspondence harness in /verif, compiled only with the
+// `verif` build tag.  Nothing here changes the behaviour of a pool: the
+// package already routes runtime.SetFinalizer through the variable
+// `setFinalizer` (see unsafepool.go) so that its own tests can swap it; this
+// file lets an external harness do the same swap, fire the captured Go
+// finalisers deterministically, and read a ClonePool's private state.
+
+package luagc
+
+import (
+	"fmt"
+	"runtime"
+	"sort"
+	"strings"
+	"sync"
+)
+
+// VerifGCCollector is a deterministic stand-in for the part of the Go runtime
+// the pools rely on: it records the finaliser registered for each object and
+// runs it when told to.
+type VerifGCCollector struct {
+	mx         sync.Mutex
+	pending    map[interface{}]func(Value)
+	doubleSets int
+	sets       int
+	clears     int
+}
+
+// VerifGCInstallCollector replaces the package's setFinalizer with a fresh
+// deterministic collector and returns it.
+func VerifGCInstallCollector() *VerifGCCollector {
+	c := &VerifGCCollector{pending: make(map[interface{}]func(Value))}
+	setFinalizer = c.setFinalizer
+	return c
+}
+
+// VerifGCUninstallCollector restores runtime.SetFinalizer.
+func VerifGCUninstallCollector() {
+	setFinalizer = runtime.SetFinalizer
+}
+
+func (c *VerifGCCollector) setFinalizer(obj interface{}, finalizer interface{}) {
+	c.mx.Lock()
+	defer c.mx.Unlock()
+	if finalizer == nil {
+		c.clears++
+		delete(c.pending, obj)
+		return
+	}
+	c.sets++
+	if _, ok := c.pending[obj]; ok {
+		// The real runtime.SetFinalizer throws "finalizer already set" here.
+		c.doubleSets++
+	}
+	c.pending[obj] = finalizer.(func(Value))
+}
+
+// Has reports whether obj currently carries a Go finaliser.
+func (c *VerifGCCollector) Has(obj interface{}) bool {
+	c.mx.Lock()
+	defer c.mx.Unlock()
+	_, ok := c.pending[obj]
+	return ok
+}
+
+// Fire runs (and consumes) the Go finaliser registered for obj, as the Go
+// collector would once obj is unreachable.  It returns false if there is none.
+func (c *VerifGCCollector) Fire(obj Value) bool {
+	c.mx.Lock()
+	f := c.pending[obj]
+	delete(c.pending, obj)
+	c.mx.Unlock()
+	if f == nil {
+		return false
+	}
+	f(obj)
+	return true
+}
+
+// Count is the number of objects that currently carry a Go finaliser.
+func (c *VerifGCCollector) Count() int {
+	c.mx.Lock()
+	defer c.mx.Unlock()
+	return len(c.pending)
+}
+
+// DoubleSets is the number of times a finaliser was set on an object that
+// already had one (a fatal error with the real runtime.SetFinalizer).
+func (c *VerifGCCollector) DoubleSets() int {
+	c.mx.Lock()
+	defer c.mx.Unlock()
+	return c.doubleSets
+}
+
+// VerifGCDump renders the private state of a ClonePool on one line:
+//
+//	L<lastMarkOrder> R[<entry>,...] PF[<entry>,...] PR[<entry>,...]
+//
+// entry = <show(clone)>/<markOrder>/<f|-><r|-> (f: wrFinalized set, r:
+// wrReleased set).  The register (a Go map) is sorted by markOrder; the
+// pending lists are in their stored order.  R is "nil" once the register has
+// been discarded by ExtractAllMarkedRelease.
+func (p *ClonePool) VerifGCDump(show func(Value) string) string {
+	p.mx.Lock()
+	defer p.mx.Unlock()
+	ent := func(c cloneEntry) string {
+		f, r := "-", "-"
+		if c.hasFlag(wrFinalized) {
+			f = "f"
+		}
+		if c.hasFlag(wrReleased) {
+			r = "r"
+		}
+		return fmt.Sprintf("%s/%d/%s%s", show(c.value), c.markOrder, f, r)
+	}
+	list := func(cs []cloneEntry) string {
+		parts := make([]string, len(cs))
+		for i, c := range cs {
+			parts[i] = ent(c)
+		}
+		return "[" + strings.Join(parts, ",") + "]"
+	}
+	reg := "nil"
+	if p.cloneRegister != nil {
+		var es []cloneEntry
+		for _, c := range p.cloneRegister {
+			es = append(es, c)
+		}
+		sort.Slice(es, func(i, j int) bool { return es[i].markOrder < es[j].markOrder })
+		reg = list(es)
+	}
+	return fmt.Sprintf("L%d R%s PF%s PR%s", p.lastMarkOrder, reg, list(p.pendingFinalize), list(p.pendingRelease))
+}
